@@ -185,15 +185,21 @@ type Result struct {
 	Faults     map[string]int
 	Strategy   string
 	Log        []string
+	// LibOnlyTail: number of scheduling steps at the end of the run during
+	// which only library tasks took steps (every harness task was parked);
+	// LastTask: the task that was running when the run ended.
+	LibOnlyTail int
+	LastTask    string
 }
 
 // Sim is one simulated execution.
 type Sim struct {
-	cfg   Config
-	rng   splitmix
-	cur   *Task
-	tasks []*Task
-	nrun  int // number of runnable tasks
+	lastHarness int // last step taken by a task that is not library code
+	cfg         Config
+	rng         splitmix
+	cur         *Task
+	tasks       []*Task
+	nrun        int // number of runnable tasks
 
 	now    time.Duration
 	timers timerHeap
@@ -386,6 +392,10 @@ func Run(cfg Config, setup func(s *Sim), director func(s *Sim)) *Result {
 	cur = nil
 	r := &s.result
 	r.Steps = s.steps
+	r.LibOnlyTail = s.steps - s.lastHarness
+	if s.cur != nil {
+		r.LastTask = s.cur.Name
+	}
 	r.Switches = s.switches
 	r.VTime = s.now
 	r.Trace = Trace{Len: s.draws, Idx: s.tIdx, Val: s.tVal}
@@ -570,6 +580,9 @@ func (s *Sim) Yield(k YieldKind) {
 		s.parkForever()
 	}
 	s.steps++
+	if !s.cur.Lib {
+		s.lastHarness = s.steps
+	}
 	if s.steps > s.cfg.MaxSteps {
 		s.end(StatusBudget)
 		s.parkForever()
